@@ -163,7 +163,7 @@ Section NetThms.
   Variable pton6 : bytes -> option A6.
   Variable ntop4 : A4 -> bytes.
   Variable ntop6 : A6 -> bytes.
-  Notation address_init := (address_init A4 A6 resolve4 pton6).
+  Notation address_init := (address_init_core A4 A6 resolve4 pton6).
   Notation print_address := (print_address A4 A6 ntop4 ntop6).
 
   Definition not_alias (h : bytes) : Prop :=
@@ -172,7 +172,7 @@ Section NetThms.
   Theorem init_v4_port h q p : plain h -> not_alias h -> resolve4 h = Some q -> (p <= 65535)%N ->
     address_init (h ++ ":"%char :: print_dec p) = Some (mkAddr A4 A6 (IP4 A4 A6 q) p).
   Proof.
-    intros Hp [Ha1 Ha2] Hr Hle. unfold NetModel.address_init.
+    intros Hp [Ha1 Ha2] Hr Hle. unfold NetModel.address_init_core.
     destruct (print_dec_plain p) as [[_ [Hb1 Hb2]] _]. destruct (print_dec_spec p) as [Hne _].
     rewrite (parser_v4_port h (print_dec p) Hp (conj Hb1 Hb2) Hne). cbn [p_port p_colon p_fam p_host].
     destruct (print_dec p) eqn:E; [congruence|]. rewrite <- E. rewrite (port_roundtrip p Hle).
@@ -182,22 +182,22 @@ Section NetThms.
   Theorem init_v4_default_port h q : plain h -> not_alias h -> resolve4 h = Some q ->
     address_init h = Some (mkAddr A4 A6 (IP4 A4 A6 q) 80).
   Proof.
-    intros Hp [Ha1 Ha2] Hr. unfold NetModel.address_init. rewrite (parser_v4_noport h Hp).
+    intros Hp [Ha1 Ha2] Hr. unfold NetModel.address_init_core. rewrite (parser_v4_noport h Hp).
     cbn [p_port p_colon p_fam p_host]. rewrite Ha1, Ha2, Hr. reflexivity.
   Qed.
 
   Theorem init_alias_star z : resolve4 (list_of_string "0.0.0.0") = Some z ->
     address_init (list_of_string "*") = Some (mkAddr A4 A6 (IP4 A4 A6 z) 80).
-  Proof. intros H. unfold NetModel.address_init. cbn. cbn in H. rewrite H. reflexivity. Qed.
+  Proof. intros H. unfold NetModel.address_init_core. cbn. cbn in H. rewrite H. reflexivity. Qed.
 
   Theorem init_alias_localhost z : resolve4 (list_of_string "127.0.0.1") = Some z ->
     address_init (list_of_string "localhost") = Some (mkAddr A4 A6 (IP4 A4 A6 z) 80).
-  Proof. intros H. unfold NetModel.address_init. cbn. cbn in H. rewrite H. reflexivity. Qed.
+  Proof. intros H. unfold NetModel.address_init_core. cbn. cbn in H. rewrite H. reflexivity. Qed.
 
   Theorem init_v6_port h6 q p : nobracket h6 -> h6 <> [] -> pton6 h6 = Some q -> (p <= 65535)%N ->
     address_init ("["%char :: h6 ++ "]"%char :: ":"%char :: print_dec p) = Some (mkAddr A4 A6 (IP6 A4 A6 q) p).
   Proof.
-    intros Hn Hne6 Hr Hle. unfold NetModel.address_init.
+    intros Hn Hne6 Hr Hle. unfold NetModel.address_init_core.
     destruct (print_dec_spec p) as [Hne _].
     rewrite (parser_v6_port h6 (print_dec p) Hn Hne6 Hne). cbn [p_port p_colon p_fam p_host].
     destruct (print_dec p) eqn:E; [congruence|]. rewrite <- E. rewrite (port_roundtrip p Hle).
@@ -207,14 +207,14 @@ Section NetThms.
   Qed.
 
   Theorem init_empty_port_rejected h : plain h -> address_init (h ++ [":"%char]) = None.
-  Proof. intros Hp. unfold NetModel.address_init. rewrite (parser_v4_empty_port h Hp). reflexivity. Qed.
+  Proof. intros Hp. unfold NetModel.address_init_core. rewrite (parser_v4_empty_port h Hp). reflexivity. Qed.
 
   Theorem init_prefix_rejected c pre rest : ascii_eqb c "[" = false -> address_init (c :: pre ++ "["%char :: rest) = None.
-  Proof. intros H. unfold NetModel.address_init. rewrite (parser_prefix_rejected c pre rest H). reflexivity. Qed.
+  Proof. intros H. unfold NetModel.address_init_core. rewrite (parser_prefix_rejected c pre rest H). reflexivity. Qed.
 
   Theorem init_junk_after_bracket_rejected h6 c rest : nobracket h6 -> h6 <> [] -> ascii_eqb c ":" = false ->
     address_init ("["%char :: h6 ++ "]"%char :: c :: rest) = None.
-  Proof. intros Hn Hne Hc. unfold NetModel.address_init. rewrite (parser_junk_after_bracket h6 c rest Hn Hne Hc). reflexivity. Qed.
+  Proof. intros Hn Hne Hc. unfold NetModel.address_init_core. rewrite (parser_junk_after_bracket h6 c rest Hn Hne Hc). reflexivity. Qed.
 
   Theorem init_empty_brackets_rejected rest : address_init ("["%char :: "]"%char :: rest) = None.
   Proof. reflexivity. Qed.
@@ -223,7 +223,7 @@ Section NetThms.
   Theorem init_v4_bad_port_rejected h a c b : plain h -> is_digit c = false -> nobracket (a ++ c :: b) ->
     address_init (h ++ ":"%char :: a ++ c :: b) = None.
   Proof.
-    intros Hp Hc Hnb. unfold NetModel.address_init.
+    intros Hp Hc Hnb. unfold NetModel.address_init_core.
     assert (Hne : a ++ c :: b <> []) by (destruct a; discriminate).
     rewrite (parser_v4_port h (a ++ c :: b) Hp Hnb Hne). cbn [p_port p_colon p_fam p_host].
     destruct (a ++ c :: b) eqn:E; [congruence|]. rewrite <- E. rewrite (port_with_other_byte_rejected a c b Hc). reflexivity.
@@ -239,3 +239,89 @@ Section NetThms.
     address_init (print_address (mkAddr A4 A6 (IP6 A4 A6 q) p)) = Some (mkAddr A4 A6 (IP6 A4 A6 q) p).
   Proof. intros. cbn [NetModel.print_address a_ip a_port]. apply init_v6_port; assumption. Qed.
 End NetThms.
+
+(* ---------- the same for Address::init as a whole: a NUL anywhere in the text is refused ---------- *)
+Lemma lacks_has_nul s : lacks c_nul s -> has_nul s = false.
+Proof. unfold has_nul. induction 1 as [|x s Hx _ IH]; [reflexivity|]. cbn [existsb]. rewrite Hx, IH. reflexivity. Qed.
+
+Lemma lacks_cons c x s : ascii_eqb x c = false -> lacks c s -> lacks c (x :: s).
+Proof. intros Hx Hs. constructor; assumption. Qed.
+
+Section NetTop.
+  Variable A4 A6 : Type.
+  Variable resolve4 : bytes -> option A4.
+  Variable pton6 : bytes -> option A6.
+  Variable ntop4 : A4 -> bytes.
+  Variable ntop6 : A6 -> bytes.
+  Notation address_init := (address_init A4 A6 resolve4 pton6).
+  Notation core := (address_init_core A4 A6 resolve4 pton6).
+  Notation print_address := (print_address A4 A6 ntop4 ntop6).
+
+  Lemma init_of_core addr r : lacks c_nul addr -> core addr = r -> address_init addr = r.
+  Proof. intros Hn Hc. unfold NetModel.address_init. rewrite (lacks_has_nul addr Hn). exact Hc. Qed.
+
+  Lemma init_none_of_core addr : core addr = None -> address_init addr = None.
+  Proof. intros Hc. unfold NetModel.address_init. destruct (has_nul addr); [reflexivity|exact Hc]. Qed.
+
+  (* a NUL anywhere - in the host, in the port, between brackets, behind an alias - and the text is refused, whatever
+     the resolver would make of the part in front of it *)
+  Theorem init_nul_rejected a b : address_init (a ++ c_nul :: b) = None.
+  Proof.
+    unfold NetModel.address_init, has_nul. rewrite existsb_app. cbn [existsb].
+    replace (ascii_eqb c_nul c_nul) with true by reflexivity. rewrite orb_true_r. reflexivity.
+  Qed.
+
+  Theorem top_v4_port h q p : plain h -> lacks c_nul h -> not_alias h -> resolve4 h = Some q -> (p <= 65535)%N ->
+    address_init (h ++ ":"%char :: print_dec p) = Some (mkAddr A4 A6 (IP4 A4 A6 q) p).
+  Proof.
+    intros Hp Hn Ha Hr Hle. apply init_of_core; [|apply init_v4_port; assumption].
+    apply lacks_app; [exact Hn|]. apply lacks_cons; [reflexivity|apply print_dec_plain].
+  Qed.
+
+  Theorem top_v4_default_port h q : plain h -> lacks c_nul h -> not_alias h -> resolve4 h = Some q ->
+    address_init h = Some (mkAddr A4 A6 (IP4 A4 A6 q) 80).
+  Proof. intros Hp Hn Ha Hr. apply init_of_core; [exact Hn|apply init_v4_default_port; assumption]. Qed.
+
+  Theorem top_alias_star z : resolve4 (list_of_string "0.0.0.0") = Some z ->
+    address_init (list_of_string "*") = Some (mkAddr A4 A6 (IP4 A4 A6 z) 80).
+  Proof. intros H. apply init_of_core; [repeat constructor|apply init_alias_star; exact H]. Qed.
+
+  Theorem top_alias_localhost z : resolve4 (list_of_string "127.0.0.1") = Some z ->
+    address_init (list_of_string "localhost") = Some (mkAddr A4 A6 (IP4 A4 A6 z) 80).
+  Proof. intros H. apply init_of_core; [repeat constructor|apply init_alias_localhost; exact H]. Qed.
+
+  Theorem top_v6_port h6 q p : nobracket h6 -> lacks c_nul h6 -> h6 <> [] -> pton6 h6 = Some q -> (p <= 65535)%N ->
+    address_init ("["%char :: h6 ++ "]"%char :: ":"%char :: print_dec p) = Some (mkAddr A4 A6 (IP6 A4 A6 q) p).
+  Proof.
+    intros Hb Hn Hne Hr Hle. apply init_of_core; [|apply init_v6_port; assumption].
+    apply lacks_cons; [reflexivity|]. apply lacks_app; [exact Hn|].
+    apply lacks_cons; [reflexivity|]. apply lacks_cons; [reflexivity|apply print_dec_plain].
+  Qed.
+
+  Theorem top_empty_port_rejected h : plain h -> address_init (h ++ [":"%char]) = None.
+  Proof. intros Hp. apply init_none_of_core, init_empty_port_rejected, Hp. Qed.
+
+  Theorem top_prefix_rejected c pre rest : ascii_eqb c "[" = false -> address_init (c :: pre ++ "["%char :: rest) = None.
+  Proof. intros H. apply init_none_of_core, init_prefix_rejected, H. Qed.
+
+  Theorem top_junk_after_bracket_rejected h6 c rest : nobracket h6 -> h6 <> [] -> ascii_eqb c ":" = false ->
+    address_init ("["%char :: h6 ++ "]"%char :: c :: rest) = None.
+  Proof. intros Hn Hne Hc. apply init_none_of_core, init_junk_after_bracket_rejected; assumption. Qed.
+
+  Theorem top_empty_brackets_rejected rest : address_init ("["%char :: "]"%char :: rest) = None.
+  Proof. apply init_none_of_core, init_empty_brackets_rejected. Qed.
+
+  Theorem top_bad_port_rejected h a c b : plain h -> is_digit c = false -> nobracket (a ++ c :: b) ->
+    address_init (h ++ ":"%char :: a ++ c :: b) = None.
+  Proof. intros Hp Hc Hnb. apply init_none_of_core, init_v4_bad_port_rejected; assumption. Qed.
+
+  Theorem top_print_parse_v4 q p : plain (ntop4 q) -> lacks c_nul (ntop4 q) -> not_alias (ntop4 q) ->
+    resolve4 (ntop4 q) = Some q -> (p <= 65535)%N ->
+    address_init (print_address (mkAddr A4 A6 (IP4 A4 A6 q) p)) = Some (mkAddr A4 A6 (IP4 A4 A6 q) p).
+  Proof. intros. cbn [NetModel.print_address a_ip a_port]. apply top_v4_port; assumption. Qed.
+
+  Theorem top_print_parse_v6 q p : nobracket (ntop6 q) -> lacks c_nul (ntop6 q) -> ntop6 q <> [] ->
+    pton6 (ntop6 q) = Some q -> (p <= 65535)%N ->
+    address_init (print_address (mkAddr A4 A6 (IP6 A4 A6 q) p)) = Some (mkAddr A4 A6 (IP6 A4 A6 q) p).
+  Proof. intros. cbn [NetModel.print_address a_ip a_port]. apply top_v6_port; assumption. Qed.
+End NetTop.
